@@ -49,29 +49,41 @@ func main() {
 	for _, procs := range []int{2, 4, 16} {
 		runtime.GOMAXPROCS(procs)
 		for _, g := range []int{2, 4, 8, 16} {
+			// (each goroutine keeps its own tally: a shared lock after every body would order the bodies of
+			// different goroutines one after the other and hide their unsynchronised accesses from the detector)
 			var wg sync.WaitGroup
-			var mu sync.Mutex
+			type tally struct {
+				runs, mismatches int
+				first            string
+			}
+			tallies := make([]tally, g)
 			for t := 0; t < g; t++ {
 				t := t
 				wg.Add(1)
 				go func() {
 					defer wg.Done()
+					my := &tallies[t]
 					for i := 0; i < iters/g+1; i++ {
 						n := names[(t*7+i)%len(names)]
 						obs := checks.C09Body(n)()
-						mu.Lock()
-						runs++
+						my.runs++
 						if obs != seq[n] {
-							mismatches++
-							if firstMismatch == "" {
-								firstMismatch = fmt.Sprintf("%s: concurrent %q, sequential %q", n, obs, seq[n])
+							my.mismatches++
+							if my.first == "" {
+								my.first = fmt.Sprintf("%s: concurrent %q, sequential %q", n, obs, seq[n])
 							}
 						}
-						mu.Unlock()
 					}
 				}()
 			}
 			wg.Wait()
+			for _, ty := range tallies {
+				runs += ty.runs
+				mismatches += ty.mismatches
+				if firstMismatch == "" {
+					firstMismatch = ty.first
+				}
+			}
 		}
 	}
 	// cold rounds: the shared trees are parsed anew and the very first evaluations of them are the
@@ -91,7 +103,8 @@ func main() {
 		var wg sync.WaitGroup
 		var start sync.WaitGroup
 		start.Add(1)
-		var mu sync.Mutex
+		var coldRuns, coldMis [8]int
+		var coldFirst [8]string
 		for t := 0; t < 8; t++ {
 			t := t
 			wg.Add(1)
@@ -101,20 +114,25 @@ func main() {
 				for i := range evals {
 					n := evals[(i+t)%len(evals)]
 					obs := checks.C09Body(n)()
-					mu.Lock()
-					runs++
+					coldRuns[t]++
 					if obs != seq[n] {
-						mismatches++
-						if firstMismatch == "" {
-							firstMismatch = fmt.Sprintf("cold round %d, %s: concurrent %q, sequential %q", round, n, obs, seq[n])
+						coldMis[t]++
+						if coldFirst[t] == "" {
+							coldFirst[t] = fmt.Sprintf("cold round %d, %s: concurrent %q, sequential %q", round, n, obs, seq[n])
 						}
 					}
-					mu.Unlock()
 				}
 			}()
 		}
 		start.Done()
 		wg.Wait()
+		for t := 0; t < 8; t++ {
+			runs += coldRuns[t]
+			mismatches += coldMis[t]
+			if firstMismatch == "" {
+				firstMismatch = coldFirst[t]
+			}
+		}
 	}
 	// deep + concurrent: G goroutines are all inside one deeply nested shared formula at the same
 	// time (a barrier host function at the innermost level makes the overlap certain)
